@@ -569,7 +569,7 @@ fn e6_binding_arms(out: &mut Vec<Edge>, tier: Tier) {
                     }
                 }
                 let ck = if dup && !default {
-                    Some("match arms that bind the same variant under different names are counted as distinct values by the exhaustiveness test".to_string())
+                    Some("=match arms that bind the same variant under different names are counted as distinct values by the exhaustiveness test".to_string())
                 } else {
                     None
                 };
@@ -619,7 +619,7 @@ fn e7_globals(out: &mut Vec<Edge>) {
                 text: format!("function f({}) int {{ {u} }}", sig()),
                 family: "global_lets",
                 kind: EdgeKind::Function,
-                class_key: if ill { Some("global let struct literal whose field values are not type-checked".to_string()) } else { None },
+                class_key: if ill { Some("=global let struct literal whose field values are not type-checked".to_string()) } else { None },
             });
         }
     }
@@ -655,7 +655,7 @@ fn e8_calls(out: &mut Vec<Edge>) {
     for l in &lists {
         let args = l.join(", ");
         let short = l.len() < 2;
-        let recall_key = if short { Some("recall call with fewer arguments than the recall block declares".to_string()) } else { None };
+        let recall_key = if short { Some("=recall call with fewer arguments than the recall block declares".to_string()) } else { None };
         let cmd = |policy: String| {
             format!("command Cmd {{ fields {{ x int }} seal {{ return todo() }} open {{ return todo() }} policy {{ {policy} }} recall r(p int, q bool) {{ let w = saturating_add(p, 1) finish {{ emit Eff {{ a: w }} }} }} recall r0() {{ finish {{ }} }} }}")
         };
@@ -727,7 +727,7 @@ fn e9_map_exits(out: &mut Vec<Edge>) {
                 text: format!("action f() {{ {outer} }}"),
                 family: "map_early_exits",
                 kind: EdgeKind::Action0,
-                class_key: if *leaves { Some("return from inside a map loop leaves its query iterator on the stack of open queries".to_string()) } else { None },
+                class_key: if *leaves { Some("=return from inside a map loop leaves its query iterator on the stack of open queries".to_string()) } else { None },
             });
         }
     }
@@ -850,7 +850,10 @@ fn run_edge(rep: &mut Report, e: &Edge, tuples: &[Vec<Value>], stores: &[RecIo])
                         if std::env::var_os("POL_DEBUG").is_some() {
                             eprintln!("WRONG {kind}: {msg} :: {} :: {}", e.family, e.text.split(") ").skip(1).collect::<Vec<_>>().join(") "));
                         }
+                        // class keys starting with '=' name one root cause whatever error kind it
+                        // surfaces as; the older class keys carry the kind as a suffix
                         let key = match &e.class_key {
+                            Some(k) if k.starts_with('=') => k[1..].to_string(),
                             Some(k) => format!("{k}: {kind}"),
                             None => e.text.clone(),
                         };
